@@ -33,8 +33,8 @@ def _payload(dcl):
 
 
 def decls_to_tokens(decls):
-    """Each declaration in its own chain of single-identifier namespaces; an enum/subint whose enclosing scope is
-    the fqn of an interface declared in the model is written as a local type of the first such interface."""
+    """Each declaration in its own chain of single-identifier namespaces; an enum/subint/extern whose enclosing scope
+    is the fqn of an interface declared in the model is written as a local type of the first such interface."""
     decls = [dict(d) for d in decls]
     itf_first = {}
     for i, dcl in enumerate(decls):
@@ -42,7 +42,7 @@ def decls_to_tokens(decls):
             itf_first.setdefault(tuple(dcl['fqn']), i)
     nested = {}
     for i, dcl in enumerate(decls):
-        if dcl['kind'] in ('enum', 'subint') and tuple(dcl['fqn'][:-1]) in itf_first:
+        if dcl['kind'] in ('enum', 'subint', 'extern') and tuple(dcl['fqn'][:-1]) in itf_first:
             nested.setdefault(itf_first[tuple(dcl['fqn'][:-1])], []).append(i)
     skip = {i for lst in nested.values() for i in lst}
     toks = []
@@ -88,6 +88,9 @@ def tokens_to_decls(tokens):
                                             fields=dzn.payload_of('enum', sub['pay'])['fields']))
                     elif sub['kind'] == 'subint':
                         out.append(new_decl('subint', fqn + list(sub['name'])))
+                    elif sub['kind'] == 'extern':
+                        out.append(new_decl('extern', fqn + list(sub['name']),
+                                            cpp=dzn.payload_of('extern', sub['pay'])['value']))
             elif kind == 'enum':
                 out.append(new_decl(kind, fqn, fields=pay['fields']))
             elif kind == 'subint':
